@@ -121,6 +121,9 @@ class EstimationMethod:
                 ". See https://github.com/awohns/tsdate/issues/5 for details"
             )
 
+        if mutation_rate is not None and not (0.0 < mutation_rate < np.inf):
+            raise ValueError("Mutation rate must be positive and finite")
+
         Ne = population_size  # shorthand
         if isinstance(Ne, dict):
             Ne = demography.PopulationSizeHistory(**Ne)
